@@ -18,9 +18,34 @@ def bitarray_endianness(tier='quick', seed=0):
     for _ in range(200 if tier == 'quick' else 3000):
         n = rng.choice([0, 1, 7, 8, 9, 11, 16, 31, 64, rng.randint(0, 200)])
         s = ''.join(rng.choice('01') for _ in range(n))
-        le = bitarray.bitarray(s, endian='little')
+        kind, le = rng.choice([('little-endian bitarray', bitarray.bitarray(s, endian='little')), ('little-endian bitarray', bitarray.bitarray(s, endian='little')),
+                               ('little-endian frozenbitarray', bitarray.frozenbitarray(s, endian='little')),
+                               ('big-endian frozenbitarray', bitarray.frozenbitarray(s, endian='big'))])
         off = rng.randint(0, n)
+        t = ''.join(rng.choice('01') for _ in range(n))
         for cls in (Bits, BitArray, ConstBitStream, BitStream):
+            # as an operand: promoted on the fly by the bit-wise operators and by ==
+            evals += 1
+            x = cls(bin=t) if t else cls()
+            try:
+                want = [''.join(str(f(int(p), int(q))) for p, q in zip(t, s)) for f in (lambda p, q: p & q, lambda p, q: p | q, lambda p, q: p ^ q)]
+                got = [(x & le).bin, (x | le).bin, (x ^ le).bin] if n else want
+                ok = got == want and (x == le) is (t == s)
+                if ok and n and cls in (BitArray, BitStream):
+                    y = cls(bin=t)
+                    y &= le
+                    z = cls(bin=t)
+                    z ^= le
+                    ok = y.bin == want[0] and z.bin == want[2]
+                obs = f'{got}'
+            except Exception as e:
+                ok = False
+                obs = f'{type(e).__name__}: {e}'
+            if not ok:
+                ctor = ('bitarray.frozenbitarray' if 'frozen' in kind else 'bitarray.bitarray') + f"('{s}', endian='{'little' if 'little' in kind else 'big'}')"
+                fails.append({'call': f"{cls.__name__}(bin='{t}') &, |, ^, == a {kind} '{s}'", 'observed': obs[:200],
+                              'python': 'import bitarray, bitstring\n' + f"le = {ctor}\nx = bitstring.{cls.__name__}(bin='{t}')\n"
+                                        f"try:\n    FAILS = [(x & le).bin, (x | le).bin, (x ^ le).bin] != {want!r} or (x == le) is not {t == s}\nexcept Exception:\n    FAILS = True\n"})
             for route, make, want_s in (('auto', lambda: cls(le), s), ('bitarray=', lambda: cls(bitarray=le), s),
                                         ('bitarray= with offset', lambda: cls(bitarray=le, offset=off), s[off:])):
                 evals += 1
@@ -31,13 +56,13 @@ def bitarray_endianness(tier='quick', seed=0):
                 if cls in (Bits, ConstBitStream):
                     ok = ok and hash(a) == hash(b)
                 if not ok:
-                    fails.append({'call': f"{cls.__name__} from a little-endian bitarray('{s}') via {route}", 'observed': f'tobytes {a.tobytes()!r} vs {b.tobytes()!r}',
+                    fails.append({'call': f"{cls.__name__} from a {kind}('{s}') via {route}", 'observed': f'tobytes {a.tobytes()!r} vs {b.tobytes()!r}',
                                   'python': 'import bitarray, bitstring\n'
-                                            f"le = bitarray.bitarray('{s}', endian='little')\n"
+                                            + (f"le = bitarray.frozenbitarray('{s}', endian='{'little' if 'little' in kind else 'big'}')\n" if 'frozen' in kind else f"le = bitarray.bitarray('{s}', endian='little')\n") +
                                             f"a = bitstring.{cls.__name__}(le); b = bitstring.{cls.__name__}(bin='{s}') if '{s}' else bitstring.{cls.__name__}()\n"
                                             "FAILS = not (a == b and a.tobytes() == b.tobytes() and hash(bitstring.Bits(a)) == hash(bitstring.Bits(b)))\n"})
     return {'id': 'C08.endianness', 'obligations': [], 'evaluations': evals,
             'bounded': [{'id': 'C08/bitstore.BitStore.__init__/little-endian-bitarray-sources', 'qualname': 'bitstore.BitStore.__init__', 'shape': 'random contents',
-                         'function': 'construction from bitarray.bitarray(..., endian="little")', 'bound': '200 random contents (3000 thorough) x 4 classes x 3 routes',
+                         'function': 'construction from, and bit-wise operators / == with, bitarray.bitarray(..., endian="little") and frozenbitarrays of both endiannesses', 'bound': '200 random contents (3000 thorough) x 4 classes x (3 routes + operand use)',
                          'evaluations': evals, 'failures': fails[:3]}],
             'summary': f'{evals} constructions, {len(fails)} failures'}
